@@ -177,3 +177,10 @@ add("C06", "model_checking",
     "named by the property (cycle, unknown base, duplicate / reserved names, re-declared member, constructor argument missing / extra / reordered / retyped / without None default, nested optional, list of "
     "optionals, duplicate invariant description, dangling references, empty / un-anchored pattern, ...): the base must be accepted, every mutation rejected with a report and without an exception.",
     "Finite family: the solver only enumerates the selector and the front end runs concretely (stated honestly). One base model; no combinations of mutations.")
+
+add("C07", "model_checking",
+    "bounded symbolic execution (CrossHair/z3) of the meta-model's own invariant lambdas (exec'd source) on symbolic type-conforming instances, for every candidate invariant that the real front end, smoke tool and Python generator accept",
+    "53 candidate invariants (well-typed and deliberately ill-typed) are each put alone on a class with str/int/bool/enum/list/Optional/nested properties; for every candidate accepted by the project's own acceptance "
+    "test (smoke.main.execute = front end + schema inference + C# type and verification generation) and by python.lib.generate_verification, the source lambda is evaluated by CPython on an instance whose property "
+    "values are all symbolic and type-conforming (None exactly where Optional): TypeError / AttributeError is a violation, IndexError is admitted.",
+    "Soundness direction only. 'Accepted' is read as smoke + Python generation because the front end proper runs no type inference (see DESIGN.md). Five open known findings (classes of ill-typed invariants which are accepted).")
